@@ -10,13 +10,14 @@ def check(tier, replay_path=None):
     return c05.run(
         PID, tier, replay_path, facts=True, module='MC_OalTypeTrace',
         mods=('OalSyntax', 'OalType', 'OalTypeTrace', 'MC_OalTypeTrace', 'TraceBase'), consts=CONSTS,
-        rule='one evaluation = one generated OAL body (the C05 corpus, all four action homes, random layout and keyword case) prebuilt in '
+        rule='one evaluation = one generated OAL body (the C05 corpus, function, bridge, operation, derived attribute and state homes, event statements included, random layout and keyword case) prebuilt in '
              'a synthesised BridgePoint model; the adapter reads the created population back (every ACT_SMT with its subtype, line and '
              'columns, the statement its persisted Previous_Statement_ID designates and the first statement of its block; every V_VAL '
              'with line, columns and related data type; every V_VAR with type and declaring block; every V_PAR with the parameter its '
              'Next_Value_ID designates; subtype counts across R603 / R801; association and uniqueness violations before and after) and '
              'TLC compares it with OalType.tla: StmtInfo (predecessor and block by source order), Entries/TypeOf (OAL typing), VarInfo '
-             '(declaring block, first-assignment type), ParamPairs',
+             '(declaring block, first-assignment type; an event variable is declared by its first create event statement with type '
+             'inst<Event>), ParamPairs (data items of an event specification succeed one another like parameters)',
         model='OalType.tla (TypeOf, Entries, StmtInfo, VarInfo, ParamPairs) over OalSyntax!Ranges',
         assumptions=[
             'elif / else clauses are counted for the one-subtype rule only (their recorded position is that of the condition, which the '
